@@ -228,8 +228,11 @@ type limitCM struct {
 	activeG   map[string]int
 	calls     map[[2]int]int
 	cur, peak int // all tagged handlers running now / maximum since the last reset
-	entered   int
-	closed    bool // Close has returned
+	// the same for the requests of the second wave only (request numbers >= 1000):
+	// a straggler of the burst whose client gave up long ago may still arrive
+	curWave, peakWave int
+	entered           int
+	closed            bool // Close has returned
 }
 
 func c18Tag(client, req int) types.BlockID {
@@ -257,6 +260,12 @@ func (c *limitCM) BlocksForHistory(history []types.BlockID, max uint64) ([]types
 	if c.cur > c.peak {
 		c.peak = c.cur
 	}
+	if req >= 1000 {
+		c.curWave++
+		if c.curWave > c.peakWave {
+			c.peakWave = c.curWave
+		}
+	}
 	c.calls[[2]int{client, req}]++
 	if c.calls[[2]int{client, req}] > 1 {
 		c.pr.add("C18.syncer-inflight", "request-handled-twice", fmt.Sprintf("request %d of client %d reached the chain manager %d times", req, client, c.calls[[2]int{client, req}]))
@@ -274,6 +283,9 @@ func (c *limitCM) BlocksForHistory(history []types.BlockID, max uint64) ([]types
 	c.active[client]--
 	c.activeG[g]--
 	c.cur--
+	if req >= 1000 {
+		c.curWave--
+	}
 	c.mu.Unlock()
 	return nil, 0, nil
 }
@@ -569,8 +581,8 @@ func c18Inflight(e *sim.Env) {
 				e.Violationf("C18.syncer-inflight", "slots-not-returned:rejected", "after the burst ended, a wave of %d requests sized to the limits (MaxInflightRPCs=%d, per subnet %d over /%d) was not fully admitted: request of client %d failed: %v", len(wave), m, q, effBits, r.client, r.err)
 			}
 		}
-		if lcm.peak != len(wave) {
-			e.Violationf("C18.syncer-inflight", "slots-not-returned:serialised", "after the burst ended, a wave of %d requests sized to the limits (MaxInflightRPCs=%d, per subnet %d over /%d) reached a concurrency of only %d", len(wave), m, q, effBits, lcm.peak)
+		if lcm.peakWave != len(wave) {
+			e.Violationf("C18.syncer-inflight", "slots-not-returned:serialised", "after the burst ended, a wave of %d requests sized to the limits (MaxInflightRPCs=%d, per subnet %d over /%d) reached a concurrency of %d", len(wave), m, q, effBits, lcm.peakWave)
 		}
 		e.Probe("inflight_second_wave")
 	}
